@@ -75,6 +75,10 @@ CLAIMED = {
         technique="finite-domain abstract interpretation of the extracted MIR paths of every Integer operation over the complete sign x zero-ness x magnitude-order case space, compared with the mathematical table",
         note="Decided: R19.1 for all 24 consistent operand cases (both encodings of zero) of checked_add/sub/mul/div and Add/Sub/Mul/Div the unique feasible path's result (sign flag, magnitude term) equals the mathematical one, checked and unchecked agree, failure exactly when the Uint128 operation fails / divisor is zero; R19.2 every zero result is observationally zero (==, is_negative/is_positive, cmp both ways); R19.3 eq/cmp/partial_cmp/sign predicates/abs/invert_sign/constructors/Display sign agree with the mathematical value in every case, parsing uses the u128 parser and the sign-aware constructors. Not decided: the magnitude arithmetic (Uint128, trusted); exact behaviour at the 128-bit boundary beyond 'fails iff the magnitude operation fails'; string round-trip of digits.",
         design="4/C19"),
+    "C01": dict(
+        technique="MIR stored-value flow (single-writer census of the curve fields) and expression-tree pattern matching of the reserve update and of both pricing functions per direction and remainder case",
+        note="Decided: R01.1 only the swap arms (and instantiate) change quote/base reserve and total_position_size, SetOpen/SettleFunding store them as loaded; R01.2 per direction base' = base -/+ y, tps' = tps +/- y with the same y, quote' = quote +/- x; R01.4 both pricing functions return |k*D/side' - other| with -1/+1 exactly when (k*D) mod side' != 0, remainder computed from the same k and side'; R01.5 both initial reserves validated >= one unit. Not decided: the inequality floor(q'b'/D) >= floor(qb/D) itself (follows from R01.2+R01.4 by the stated arithmetic lemma, not machine-checked); overflow.",
+        design="4/C01"),
 }
 
 NOT_BUILT = "rules designed in DESIGN.md section 4 but not built yet"
